@@ -172,8 +172,9 @@ def run(ctx):
     from shexer.shaper import Shaper
     from shexer import consts as C
     stats["large_class_cases"] = 0
-    for N in ([250] if ctx.tier == "quick" else [250, 2500]):
-        for dec in (0, 1, 2, -1):
+    # (a ratio rounded to `decimals` + 2 digits reaches 1.0 from (n-1)/n for n > 2000 with decimals=1 and n > 20000 with decimals=2)
+    for N, decs in ([(250, (0, 1, 2, -1)), (2500, (1, 2))] if ctx.tier == "quick" else [(250, (0, 1, 2, -1)), (2500, (0, 1, 2, -1)), (21000, (2, 3))]):
+        for dec in decs:
             missing = rng.randint(1, 2)
             g = []
             for i in range(N):
@@ -198,6 +199,52 @@ def run(ctx):
                 if th != (1, 1) and not has:
                     viol.append({"what": "a feature of %d of %d instances is dropped at threshold exactly %d/%d (decimals=%d)" % (N - missing, N, N - missing, N, dec),
                                  "decimals": dec, "N": N, "with_feature": N - missing, "shexc_tail": r[2][-400:]})
+    # ---------------- the SHACL serialisation over a threshold grid: the keys (shape, direction, path, value class) it states shrink too
+    import shacl_text
+    stats["shacl_threshold_grids"] = 0
+    stats["shacl_keys_seen"] = 0
+
+    def shacl_keys(text):
+        out = set()
+        for sh_ in shacl_text.parse(text)['shapes']:
+            for d in sh_['props']:
+                for r_ in (d['restr'] or ['none']):
+                    vc = r_ if r_.startswith(('datatype:', 'in:')) else 'nonliteral' if r_.startswith(('nodeKind:', 'node:')) else r_.split(':')[0]
+                    if vc.endswith('#Literal'):
+                        vc = 'literal'
+                    out.add((sh_['iri'], bool(d['inverse']), d['path'], vc))
+        return out
+    for i in range(40 if ctx.tier == "quick" else 600):
+        g = gen.gen_graph(rng) if i % 3 else gen.gen_schema_graph(rng)
+        if i % 2 == 0:
+            # one property with two literal kinds of different frequency in one class (3/5 strings, 2/5 integers): its two keys live on one path
+            g = list(g) + [t for k in range(5) for t in [(I('sens%d' % k), RDF_TYPE, I('Sensor')),
+                                                           (I('sens%d' % k), EX + 'code', L('c%d' % k) if k < 3 else ('L', str(k), XSD + 'integer', None))]]
+        cfg = gen.gen_cfg(rng, g, presentation=False, allow_cap=False)
+        cfg['remove_empty'] = False
+        kw = impl.shaper_kwargs(cfg)
+        grid = sorted({(0, 1), (1, 5), (2, 5), (1, 2), (3, 5), (4, 5), (1, 1)} | {tuple(t) for t in [cfg['th']]})
+        grid.sort(key=lambda t: t[0] / t[1])
+        prev, prev_t = None, None
+        stats["shacl_threshold_grids"] += 1
+        for th in grid:
+            try:
+                kw2 = dict(kw, namespaces_dict=dict(kw['namespaces_dict']))
+                txt = Shaper(raw_graph=to_nt(g), input_format=C.NT, **kw2).shex_graph(string_output=True, acceptance_threshold=th[0] / th[1], output_format=C.SHACL_TURTLE)
+                keys = shacl_keys(txt)
+            except Exception as e:
+                obs = {"kind": "exception", "exc": type(e).__name__, "msg": str(e)[:200], "cfg": cfg, "triples": g}
+                if not F.match(kf, obs) and not F.match(F.load("C11"), obs) and not F.match(F.load("C05"), obs):
+                    viol.append({"what": "SHACL output at threshold %d/%d: %s %s" % (th[0], th[1], type(e).__name__, str(e)[:120]), **pipeline.case_json(g, dict(cfg, th=list(th)))})
+                prev = None
+                continue
+            stats["shacl_keys_seen"] += len(keys)
+            if prev is not None and not keys <= prev:
+                new = sorted(keys - prev)[:3]
+                viol.append({"what": "SHACL: raising the threshold from %d/%d to %d/%d ADDS constraint keys (shape, inverse, path, value class): %s" % (
+                    prev_t[0], prev_t[1], th[0], th[1], new), "shacl_grid": [list(t) for t in grid], **pipeline.case_json(g, dict(cfg, th=list(th)))})
+                break
+            prev, prev_t = keys, th
     # ---------------- directed: one Shaper asked for thresholds that differ by 1e-10 around a k/n boundary, against fresh Shapers
     stats["near_threshold_sequences"] = 0
     for i in range(20 if ctx.tier == "quick" else 200):
@@ -279,6 +326,6 @@ def run(ctx):
                          "first_missing": missing[:5], "shapes_at_0": len(lo), "shapes_at_1": len(hi)})
     return base.std_result(ctx, cases, viol, dis, base.known_lines(kf, reproduced), stats, nontriv, samples,
                            "per random graph and configuration: fresh Shapers on every threshold of the k/n grid of the class sizes present "
-                           "(all ordered pairs compared); classes of 250 (2500) instances with a feature missing from one or two, under every decimals setting, at "
+                           "(all ordered pairs compared); classes of 250 and 2500 (21000) instances with a feature missing from one or two, under every decimals setting, at "
                            "thresholds (N-m)/N and 1; one Shaper asked for thresholds 1e-10 apart around a k/n boundary, against fresh Shapers; "
                            "non-trivial = some pair of thresholds really drops a key", DEPS)
